@@ -172,10 +172,29 @@ def classify(data):
             return 'valid', pos
 
 
-def judge_malformed(data, cuts=()):
+PREFIX = b'250 2.0.0 earlier reply\r\n'
+
+
+def judge_malformed(data, cuts=(), prefixed=False):
+    """prefixed: the input follows an earlier, well-formed reply in the same segment (the reply of a pipelined predecessor)
+    which is consumed first - the verdict on `data` must not depend on whether it was already buffered."""
+    if not prefixed and data:
+        f = judge_malformed(data, cuts, prefixed=True)
+        if f:
+            return [(sig + ':after-buffered-reply', msg) for sig, msg in f]
     verdict, consumed = classify(data)
-    sock = ScriptedSocket(cut(data, cuts))
-    io = IO(sock, ('peer', 1))
+    if prefixed:
+        sock = ScriptedSocket(cut(PREFIX + data, tuple(c + len(PREFIX) for c in cuts)))
+        io = IO(sock, ('peer', 1))
+        try:
+            first = io.recv_reply()
+        except Exception as e:
+            return [('C17:earlier-reply-lost:%s' % type(e).__name__, '%r: %r' % (data, e))]
+        if first != ('250', '2.0.0 earlier reply'):
+            return [('C17:earlier-reply-changed', '%r: %r' % (data, first))]
+    else:
+        sock = ScriptedSocket(cut(data, cuts))
+        io = IO(sock, ('peer', 1))
     try:
         got = io.recv_reply()
         outcome = 'returned'
